@@ -41,9 +41,13 @@ def _perm(rng, xs):
 def _bad_perm(rng, xs, universe):
     ys = _perm(rng, xs)
     r = rng.random()
-    if ys and r < 0.35:
+    if len(ys) >= 2 and r < 0.25:
+        ys[0] = ys[1]                         # same length: one member twice, another missing
+    elif ys and universe and r < 0.4:
+        ys[0] = rng.choice(universe)          # same length: a member replaced by some other object
+    elif ys and r < 0.55:
         ys.append(rng.choice(ys))            # duplicate
-    elif ys and r < 0.6:
+    elif ys and r < 0.75:
         ys.pop()                              # missing one
     elif universe:
         ys.append(rng.choice(universe))       # foreign (may coincide -> duplicate)
@@ -86,8 +90,11 @@ def container_ops(rng, dump, parent_kind, child_kind, list_key, back_key, names,
         if not src:
             return None
         xs = _subset(rng, src)
-        if not valid and kids and rng.random() < 0.7:
-            xs.append(rng.choice(kids))
+        if not valid:
+            # a refusable mix: some of the parent's own members plus a foreign one, in random order
+            foreign = [k for k in kids if k not in mine]
+            xs = (_subset(rng, mine) if mine else []) + ([rng.choice(foreign)] if foreign else [rng.choice(kids)])
+            rng.shuffle(xs)
         if rng.random() < 0.2 and xs:
             xs.append(xs[0])
         return {"t": tBulk, pk: P, "xs": xs, "asset": rng.random() < 0.5}
